@@ -15,16 +15,19 @@ LEVEL = "other"
 TECHNIQUE = "static analysis: effects (writes to module/class-level state, parameter-mutation summaries and argument freshness, unordered iteration commutativity, ambient inputs, file modes)"
 EXPLANATION = (
     "Static analysis decides the absence of the enumerated sources of history/seed/working-directory dependence: no "
-    "function writes a module-level or imported mutable object, a mutable class attribute or a mutable default argument; "
+    "function writes a module-level or imported mutable object, a mutable class attribute or a mutable default argument - except into a memo table "
+    "whose key determines, by content, everything its entries are computed from (cijsa/memo.py: keys by value, repr() of plain data, shape + element type + bytes "
+    "of an array, or entries validated by such a stamp; id() / partial keys are reported with the quantity the key misses); "
     "functions that mutate a parameter are called with fresh values only and no cached property value is stored into; every "
     "iteration over an unordered collection - or over a mapping whose key order was inherited from one (the merged configuration) - has a "
-    "commutative body; no ambient source (time, random, environment, cwd, id) "
+    "commutative body (keyed stores only when different members give different keys); no ambient source (time, random, environment, cwd, id) "
     "is used in the package outside the allow-listed CLI logging set-up; the crystal-system lookup cannot be shadowed by a "
     "working-directory entry; every file written on the output path is opened with 'w' (installed qha writers included) and "
     "the appending qha writer is not reachable; shear inputs are assigned before use. Positive-control fixtures for each "
     "zero-count rule are analysed on every run.")
 NOT_DECIDED = "byte identity of the files across hash seeds, idempotence of filling, equality of repeated reads (numerical)."
 ASSUMPTIONS = ["dict iteration order is insertion order (language guarantee); set/glob order is unspecified",
+               "memo tables: key components hash and compare by value; functions called inside a memoised computation are functions of their arguments (ambient sources excluded)",
                "T-LIB: qha.basic_io.out.save_x_tp/save_x_tv open the file with 'w'; save_to_output with 'a' (installed source)"]
 
 LIVE_SKIP = set(DEAD_MODULES)
